@@ -7,6 +7,7 @@ meta = json.load(open(os.path.join(d, "meta.json")))
 props = [meta.get("property")]
 if "--props" in sys.argv: props = sys.argv[sys.argv.index("--props") + 1].split(",")
 W = "/tmp/mut1"
+if "--wt" in sys.argv: W = sys.argv[sys.argv.index("--wt") + 1]
 def sh(cmd, **kw): return subprocess.run(cmd, shell=True, capture_output=True, text=True, **kw)
 if not os.path.isdir(W): sh("git -C /repo worktree add -q %s HEAD" % W)
 sh("git -C %s checkout -q -- . && git -C %s clean -fdq && git -C %s checkout -q --detach $(git -C /repo rev-parse HEAD)" % (W, W, W))
